@@ -6,6 +6,9 @@
      portage/atom/use.go            NewUseFlagSetFromIUSE, SetFlagsFromUSE, flagStateByIndex
      portage/atom/useDependencies.go FlagsMatch
      portage/depend/atom.go         makeDA, makeVersionComparer, VersionAndSlotMatch, FilterAtoms
+     portage/vdb/get_list.go        setAtom (the flag set and the slot of an installed package as
+                                    loaded from /var/db/pkg), readFirstFile, readFileIfExists
+     portage/atom/use.go            GetMap (ParentUseFlags of vdb/solution.go)
    Executable definitions only; proofs live in Proofs/AtomMatchP.v.
    Go strings are [bytes]; Go's [<] on strings is [Lex.ltb].  The two interning tables
    (use-flag index, use-dependency index) are injective maps and are modelled by the
@@ -282,3 +285,30 @@ Definition version_and_slot_match (d : depatom) (tst_compver tst_slot : bytes) :
   da_slotc d tst_slot && da_ver d tst_compver.
 Definition filter_one (d : depatom) (tst_compver tst_slot : bytes) (f : flagset) (ctx : list (bytes * bool)) : bool :=
   version_and_slot_match d tst_compver tst_slot && flags_match (da_usedeps d) f ctx.
+
+(* ---------------- vdb/get_list.go: setAtom ---------------- *)
+(* A VDB entry as far as setAtom reads it: the contents of the files IUSE_EFFECTIVE, IUSE, USE
+   and SLOT, None = the file does not exist. *)
+(* readFirstFile(names...): the TrimSpace'd content of the first file that exists, "" if none does
+   (readFileIfExists of a missing file is "", false, nil) *)
+Fixpoint read_first (files : list (option bytes)) : bytes :=
+  match files with
+  | [] => []
+  | Some content :: _ => trim content
+  | None :: r => read_first r
+  end.
+
+(* ca.UseFlags = NewUseFlagSetFromIUSE(readFirstFile("IUSE_EFFECTIVE", "IUSE"));
+   ca.UseFlags.SetFlagsFromUSE(readFileIfExists("USE")) *)
+Definition vdb_flags (eff iuse use : option bytes) : flagset :=
+  set_from_use (new_from_iuse (read_first [eff; iuse])) (read_first [use]).
+
+(* slot = TrimSpace(SLOT); cut at the first "/" (strings.Index); SetSlotAndSubslot(slot, "") *)
+Fixpoint before_slash (s : bytes) : bytes :=
+  match s with [] => [] | c :: r => if (bn c =? 47) then [] else c :: before_slash r end.
+Definition vdb_slot (slotfile : bytes) : bytes := before_slash (trim slotfile).
+
+(* UseFlagSet.GetMap: a Go map flag name -> state; the names of a flag set are distinct
+   (NewUseFlagSetFromIUSE skips duplicates), so the insertion order is immaterial and the map is
+   represented by the association list itself; contextFlags[name] is [ctx_lookup] *)
+Definition get_map (f : flagset) : list (bytes * bool) := f.
